@@ -301,12 +301,15 @@ PROBE_FNS = [
 # ---------------------------------------------------------------------------------
 # invalid / arbitrary query strings
 
-ALPHABET = list("$@.[]()?*,:'\"\\!=<>&| \t\n-+0123456789eEabcdftnrlsu_/") + ["é", "😀", "\x00", "\x1f", "\x7f", "A", "Z", "x"]
+ALPHABET = list("$@.[]()?*,:'\"\\!=<>&| \t\n-+0123456789eEabcdftnrlsu_/") + ["é", "😀", "\x00", "\x1f", "\x7f", "A", "Z", "x", "\u0663", "\uff11", "\U0001d7cf", "\u0967", "\u00b2", "\u2160"]
 TOKENS = ["$", "@", ".", "..", "[", "]", "(", ")", "?", "*", ",", ":", "'a'", '"b"', "!", "==", "!=", "<", "<=", ">", ">=",
           "&&", "||", " ", "\n", "-", "0", "1", "-1", "01", "-0", "1.5", "1e2", "1E-2", "0e0", "true", "false", "null",
           "True", "a", "b", "length", "count", "value", "match", "search", "length(", "count(", "foo(", "\\", "\\u0061",
           "'", '"', "é", "😀", "=", "&", "|", "1:", ":2", "::", "..*", ".*", "[*]", "[?", "@.a", "$.b", "0.0", "-0.0", "00",
-          "1.", ".5", "1e", "1e+", "+1", "--1", "''", '""']
+          "1.", ".5", "1e", "1e+", "+1", "--1", "''", '""',
+          # numbers spelled with decimal digits outside %x30-39 (lenient digit classes accept them, float()/int() too)
+          "1.\u0665", "\u0661.5", "1e-\u0662", "\uff11.5", "\u0663", "\U0001d7cf.\U0001d7d3", "1.5e\u0661", "-\u0661", "1\u0660", "\u0967.\u0967",
+          "1.5\u0660", "2e-1\u0663", "0.\uff10"]
 
 
 def mutate(rng: random.Random, q: str) -> str:
